@@ -307,6 +307,42 @@ impl Gen {
 }
 
 /// A fixed set of probe values of every kind (used by C07 and as seeds elsewhere).
+/// Wide values: many siblings of one kind in a single datum (state a parser or printer accumulates per element -
+/// a budget, a buffer, a flag - only shows after a hundred or more of them).
+pub fn wide_values() -> Vec<Value> {
+    let sym = |s: &str| Value::symbol(s);
+    let elems: Vec<Value> = vec![
+        Value::vector(Vec::<Value>::new()),
+        Value::vector(vec![Value::from(1u8)]),
+        Value::Null,
+        Value::list(vec![sym("a")]),
+        Value::list(vec![sym("quote"), sym("a")]),
+        Value::list(vec![sym("unquote-splicing"), Value::list(vec![sym("a")])]),
+        Value::cons(sym("a"), sym("b")),
+        Value::bytes(vec![1u8]),
+        Value::bytes(Vec::<u8>::new()),
+        Value::string("s\u{0}"),
+        Value::string(""),
+        Value::Char('('),
+        Value::keyword("k"),
+        Value::Nil,
+        Value::from(-1.5),
+        Value::Bool(false),
+    ];
+    let mut out = Vec::new();
+    for n in [130usize, 300] {
+        for e in &elems {
+            out.push(Value::list(std::iter::repeat(e.clone()).take(n)));
+            out.push(Value::vector(std::iter::repeat(e.clone()).take(n)));
+        }
+        out.push(Value::list((0..n).map(|i| elems[i % elems.len()].clone())));
+        out.push(Value::append((0..n).map(|i| elems[i % 3].clone()), Value::vector(vec![sym("t")])));
+    }
+    // two levels: 20 lists of 15 vectors each
+    out.push(Value::list((0..20).map(|_| Value::list((0..15).map(|i| Value::vector(vec![Value::from(i as u8)]))))));
+    out
+}
+
 pub fn probe_values() -> Vec<Value> {
     use lexpr::sexp;
     let mut v = vec![
